@@ -50,11 +50,26 @@ E = {
     "impbad": ("import self.bad;", "", [], ["bad"]),
     "impbad2": ("import self.bad2;", "", [], ["bad2"]),
     "imprt": ("import self.rt;", "print('rt loading');", [], ["rt"]),
+    # fibers and channels that live across prompt lines: launched on one line, still queued when the line ends, completed on a later one
+    "defch": ("let ch = chan(3);", "let ch = chan(3);", [], ["ch"]),
+    "defprod": ("fn producer(n) { ch <- n; ch <- n + 1; ch <- n + 2; }", "fn producer(n) { ch <- n; ch <- n + 1; ch <- n + 2; }", ["ch"], ["producer"]),
+    "launchprod": ("launch producer(10);", "launch producer(10);", ["producer"], ["launched"]),
+    "recv1": ("print('got', <- ch);", "print('got', <- ch);", ["launched"], ["r1"]),
+    "recv2": ("print('got', <- ch);", "print('got', <- ch);", ["r1"], ["r2"]),
+    "recv3": ("print('got', <- ch);", "print('got', <- ch);", ["r2"], ["r3"]),
+    "sendself": ("ch <- 99; print('sent');", "ch <- 99; print('sent');", ["r1"], ["s1"]),
+    "recvself": ("print('self', <- ch);", "print('self', <- ch);", ["s1", "r3"], ["rs"]),
+    "defc1": ("let c1 = chan(1);", "let c1 = chan(1);", [], ["c1"]),
+    "lr": ("fn w1() { c1 <- 1; } launch w1(); print('lr', <- c1);", "fn w1() { c1 <- 1; } launch w1(); print('lr', <- c1);", ["c1"], ["lr"]),
+    "overfill": ("c1 <- 5; c1 <- 6; print('never');", "c1 <- 5;", ["lr"], ["of"]),
+    "blockline": ("let full = chan(1); full <- 1; full <- 2;", "", [], ["full"]),
     "loop": ("for i in 2.times() { print('i', i); }", "for i in 2.times() { print('i', i); }", [], []),
 }
 QUICK = ["defx", "updx", "getx", "callgetx", "clsA", "callfoo", "prop", "usefooA", "usepropA", "bad", "raise", "rtfail", "clsB", "usefooB", "faildecl", "faildecl_g", "failimport"]
+FIBERS = ["defch", "defprod", "launchprod", "recv1", "recv2", "recv3", "sendself", "recvself", "blockline", "defc1", "lr", "overfill", "rtfail", "raise", "bad", "faildecl", "defx", "updx"]
+FIBER_ONLY = ["defch", "defprod", "launchprod", "recv1", "recv2", "recv3", "sendself", "recvself", "blockline", "defc1", "lr", "overfill"]
 IMPORT_ONLY = ["impgood", "usegood", "impgood2", "usegood2", "impbad", "impbad2", "imprt"]
-ALL = [k for k in E if k not in IMPORT_ONLY]
+ALL = [k for k in E if k not in IMPORT_ONLY and k not in FIBER_ONLY]
 IMPORTS = ["impgood", "usegood", "impgood2", "usegood2", "impbad", "impbad2", "imprt", "failimport", "clsA", "callfoo", "usefooA", "bad", "faildecl"]
 FILES = {
     "/v/good.lay": "export fn g(a) { return a.v; } class P { init() { self.v = 7; } } export let p = P(); print('good loaded', g(p));",
@@ -77,10 +92,29 @@ def valid(seq):
     return True
 
 
+def sequences(alpha, L):
+    """all sequences of length 1..L over alpha that respect define-before-use (depth first, extending valid prefixes only; shorter first within a prefix)"""
+    out_by_len = {}
+
+    def rec(seq, defined):
+        if seq:
+            yield tuple(seq)
+        if len(seq) == L:
+            return
+        for n in alpha:
+            line, filetext, req, defs = E[n]
+            if any(r not in defined for r in req) or any(d in defined for d in defs):
+                continue
+            seq.append(n)
+            yield from rec(seq, defined | set(defs))
+            seq.pop()
+    return rec([], frozenset())
+
+
 class C19(Check):
     id = "C19"
     level = "exploration"
-    rule = ("all sequences of <= L prompt entries (L=5 quick over a 17 entry alphabet; thorough: L=5 over 28 entries plus L=6 over the 17) plus L=5 (6 thorough) over a 13 entry alphabet of user-module imports (good, failing to compile, raising while loading) that respect "
+    rule = ("all sequences of <= L prompt entries (L=5 quick over a 17 entry alphabet; thorough: L=5 over 28 entries plus L=6 over the 17) plus L=6 (7 thorough) over an 18 entry alphabet with a channel, a producer function, its launch, receives on later lines, a send, a line that blocks for good, raising and failing lines (sessions that launch or block); plus L=5 (6 thorough) over a 13 entry alphabet of user-module imports (good, failing to compile, raising while loading) that respect "
             "define-before-use; each sequence: Vm::repl with scripted stdin vs Vm::run on the concatenation of the entries that take "
             "effect (lines failing to compile dropped, raising lines wrapped in try); oracle = equal stdout, REPL ends normally. "
             "non-trivial = a sequence in which a later line executes code (call/property/invoke site) compiled on an earlier line")
@@ -102,17 +136,19 @@ class C19(Check):
 
     def gen(self, tier):
         if tier == "thorough":
-            plans = [(ALL, 5), (QUICK, 6), (IMPORTS, 6)]
+            plans = [(ALL, 5), (QUICK, 6), (IMPORTS, 6), (FIBERS, 7)]
         else:
-            plans = [(QUICK, 5), (IMPORTS, 5)]
+            plans = [(QUICK, 5), (IMPORTS, 5), (FIBERS, 6)]
         seen_upto = 0
         for alpha, L in plans:
-            for n in range(1, L + 1):
-                for seq in itertools.product(alpha, repeat=n):
-                    if alpha is IMPORTS and not any(x in IMPORT_ONLY for x in seq):
-                        continue  # covered by the other plans
-                    if valid(seq) and not (seen_upto and n <= 5 and all(x in ALL for x in seq) and alpha is QUICK):
-                        yield seq
+            for seq in sequences(alpha, L):
+                n = len(seq)
+                if alpha is IMPORTS and not any(x in IMPORT_ONLY for x in seq):
+                    continue  # covered by the other plans
+                if alpha is FIBERS and ("launchprod" not in seq and "blockline" not in seq and "lr" not in seq):
+                    continue  # only sessions in which a fiber is launched or a line blocks (the definitions alone are covered by the other plans)
+                if not (seen_upto and n <= 5 and all(x in ALL for x in seq) and alpha is QUICK):
+                    yield seq
             seen_upto = L
 
     def describe(self, spec):
@@ -128,7 +164,7 @@ class C19(Check):
 
     def judge(self, spec, ctx, rs):
         rp, fl = rs
-        cross = any(n in ("callgetx", "usefooA", "usefooB", "usepropA", "usepropB", "callinc", "usegood", "usegood2") for n in spec)
+        cross = any(n in ("callgetx", "usefooA", "usefooB", "usepropA", "usepropB", "callinc", "usegood", "usegood2", "recv1", "recv2", "recv3", "recvself") for n in spec)
         if fl.get("class") != "ok":
             v = Verdict(False, cross, "file-not-ok", "the file version did not run cleanly (model error?): class=%s err=%r" % (fl.get("class"), fl.get("err", "")[-300:]))
             v.extra["machinery"] = True
